@@ -94,7 +94,7 @@ class C05(Prop):
             key = rng.choice([base[0], base[0], (base[0], base[1]), None])
             rev = rng.random() < 0.3
             bs = rng.choice([None, None, 1, 2, 3])
-            yield Case('mergesort', (key, rev, False, None, None, bs, tuple(tabs)))
+            yield Case('mergesort', (key, rev, False, rng.choice([None, None, 'M']), None, bs, tuple(tabs)))
         # issorted by the first column given as index 0: ties in that column, other cells in any order
         for rows in (((1, 'b'), (1, 'a'), (2, 'c')), ((None, 2), (None, 1)), ((1, 'z'), (True, 'y'), (1.0, 'x')),
                      ((0, 9), (0, 1), (0, 5), (1, 0)), ((2, 'a'), (1, 'b'))):
@@ -219,6 +219,14 @@ class C05(Prop):
     def finding_id(self, case, impl_obs, model_obs):
         if case.op == 'mergesort' and case.arg[0] is None:
             return 'mergesort-key-none'
+        if case.op == 'mergesort' and case.arg[3] is not None:
+            # a row too short to carry a key cell: sorted under None inside mergesort, under the `missing` marker in sort(cat)
+            key, tabs = case.arg[0], case.arg[6]
+            ks = key if isinstance(key, tuple) else (key,)
+            for t in tabs:
+                idx = [k if isinstance(k, int) else (list(t[0]).index(k) if k in t[0] else None) for k in ks]
+                if any(i is None or any(len(r) <= i for r in t[1:]) for i in idx):
+                    return 'mergesort-missing-marker-in-key'
         return None
 
 
